@@ -148,6 +148,13 @@ def run_impl(case):
     if case["conv"] is not None:
         c = case["conv"]
         conv = CallingConventionDesc(registers=tuple(c["regs"]), stack_alignment=c["align"], caller_cleanup=c["caller_cleanup"], shadow_space=c["shadow"])
+    # the arguments are documented as an Iterable: some cases hand them over as a one-shot iterator or a generator
+    if case.get("oneshot") == "iter":
+        args = iter(args)
+    elif case.get("oneshot") == "gen":
+        args = (a for a in list(args))
+    elif case.get("oneshot") == "tuple":
+        args = tuple(args)
     try:
         patch = CallPatch(callee, args, conv)
     except Exception as e:  # noqa: BLE001
@@ -231,7 +238,7 @@ def gen_case(rng, abiname):
         adj += W - adj % W
     if adj is not None and isa == "ARM64" and adj % 16:
         adj += 16 - adj % 16  # the ARM64 prologue only ever moves sp by multiples of 16
-    return {"abi": abiname, "args": args, "conv": conv, "adj": adj}
+    return {"abi": abiname, "args": args, "conv": conv, "adj": adj, "oneshot": rng.choice([None, None, None, "tuple", "iter", "gen"])}
 
 
 CORPUS = [
